@@ -3,6 +3,7 @@ Anything not listed here (and not a specified or inlinable local function) is UN
 
 from logic import *
 from absint import *
+from absint import _contains
 
 def install(E):
     S = E.std
@@ -302,18 +303,75 @@ def install(E):
         return I.fresh(cls, ('default', e['loc']), e['ty'])
     S['trait:std::default::Default::default'] = default
 
-    def it_fold(I, args, e, c):
-        it, init, f = args
+    def fold_core(I, it, init, step, loc, closure_thir=None):
+        """fold(it, init, step).  Two ways to give it a meaning:
+        (1) induction: `it` walks a list parameter L of the function under analysis (front to back, or back to front via rev) and
+            the fold is the function's result.  Then, with the function's own summary F as induction hypothesis on the tail,
+              rev:      fold(rev(h::t), init, f)  = f(fold(rev t, init, f), h)          = f(F[L:=t], h)
+              forward:  fold(h::t, b, f)          = fold(t, f(b, h), f)                 = F[L:=t, b:=f(b,h)]   (b a parameter)
+            (explore() checks afterwards that the fold really is what the function returns, and the size-change rule sees the call);
+        (2) a conjunction of members: step(acc, x) = and(acc, g(x))  ->  FOLD_AND(init, map(g, it))."""
         it = as_iter(I, it)
-        if not isinstance(it, VIter) or not isinstance(init, VBdd): raise Undecidable('fold on %r' % (it,), e['loc'])
+        if not isinstance(it, VIter) or not isinstance(init, VBdd): raise Undecidable('fold on %r' % (it,), loc)
+        t = it.term; rev = False
+        if t[0] == 'rev': rev = True; t = t[1]
+        params = getattr(I, 'top_params', None)
+        sp = I.E.specs.get(I.fname)
+        if params is not None and sp is not None and len(I.inline_stack) == 1 and not getattr(sp, 'inline_calls', False):
+            idx = [i for i, p in enumerate(params) if isinstance(p, VList) and p.term == t]
+            if idx:
+                idx = idx[0]
+                th = I.E.thir(I.fname)
+                pv = th['params'][idx].get('pat', {})
+                pvar = pv.get('var') if pv.get('k') == 'Binding' else None
+                if closure_thir is not None and pvar is not None and any(x.get('var') == pvar for x in walk(closure_thir)):
+                    raise Undecidable('fold whose step function reads the list it folds over', loc)
+                if I.list_empty(t): 
+                    I.events.append(('fold_induction', I.term_of(init), loc)); I.fold_used = True
+                    return init
+                L = params[idx]
+                h = I.fresh(L.elem, I.list_head(t, L.elem, loc)); tl = VList(I.list_tail(t, loc), L.elem)
+                args2 = list(params); args2[idx] = tl
+                if rev:
+                    ih = I.E.apply_spec(I, sp, args2, loc)
+                    r = step(ih, h)
+                else:
+                    j = [i for i, p in enumerate(params) if isinstance(p, VBdd) and p.term == init.term]
+                    if not j: raise Undecidable('front-to-back fold over a list parameter whose initial value is not a parameter', loc)
+                    args2[j[0]] = step(init, h)
+                    r = I.E.apply_spec(I, sp, args2, loc)
+                I.events.append(('fold_induction', I.term_of(r), loc)); I.fold_used = True
+                return r
+        if rev: raise Undecidable('fold over a reversed sequence that is not a list parameter of the function', loc)
         acc = VBdd(('p', 'FOLD_ACC'))
         el = I.fresh(it.elem, ('elem', it.term))
-        r = I.apply(f, [acc, el], e['loc'])
-        I.events.append(('fold', init.term, it.term, I.term_of(r), e['loc']))
+        r = step(acc, el)
         AND = 'rsbdd::bdd::BDDEnv::and'
-        if isinstance(r, VBdd) and r.term in (('app', AND, acc.term, el.term), ('app', AND, el.term, acc.term)):
-            return VBdd(('app', 'FOLD_AND', init.term, it.term))
-        raise Undecidable('fold with a combining function other than conjunction', e['loc'])
+        if isinstance(r, VBdd) and r.term[0] == 'app' and r.term[1] == AND and len(r.term) == 4:
+            x = r.term[3] if r.term[2] == acc.term else r.term[2] if r.term[3] == acc.term else None
+            if x is not None and x == I.term_of(el):
+                I.events.append(('fold', init.term, it.term, r.term, loc))
+                return VBdd(('app', 'FOLD_AND', init.term, it.term))
+            if x is not None and not _contains(x, acc.term):
+                mp = ('map', x, it.term)
+                I.events.append(('fold', init.term, mp, r.term, loc))
+                return VBdd(('app', 'FOLD_AND', init.term, mp))
+        I.events.append(('fold', init.term, it.term, I.term_of(r), loc))
+        raise Undecidable('fold with a combining function other than conjunction', loc)
+    I_fold = fold_core
+    S['__fold_core__'] = fold_core
+
+    def it_fold(I, args, e, c):
+        it, init, f = args
+        cth = I.E.thir(f.name)['body'] if isinstance(f, VClosure) and I.E.thir(f.name) is not None else None
+        return fold_core(I, it, init, lambda a, x: I.apply(f, [a, x], e['loc']), e['loc'], cth)
+    def it_rev(I, args, e, c):
+        it = as_iter(I, args[0])
+        if not isinstance(it, VIter): raise Undecidable('rev on %r' % (it,), e['loc'])
+        if it.term[0] == 'rev': return VIter(it.term[1], it.elem)
+        return VIter(('rev', it.term), it.elem)
+    S['trait:std::iter::Iterator::rev'] = it_rev
+    S['std::iter::Iterator::rev'] = it_rev
     S['trait:std::iter::Iterator::fold'] = it_fold
     S['std::iter::Iterator::fold'] = it_fold
     def categorize(I, args, e, c):
